@@ -18,10 +18,7 @@ Open Scope Z_scope.
 (* the bridge: a well-formed 1-D index is a well-formed dimension with the same dense column *)
 Theorem C05_dimension_of_index : forall N i, is1d N i ->
   dim_wf N (dim_of_iindex i) /\ forall r, dim_dense (dim_of_iindex i) r = dense i r [].
-Proof.
-  exact (fun N i I => conj (dim_of_iindex_wf N i I)
-                           (fun r => dim_of_iindex_dense i r (proj1 I) (proj2 (proj2 I)))).
-Qed.
+Proof. exact dim_of_iindex_spec. Qed.
 Print Assumptions C05_dimension_of_index.
 
 (* any two encodings of the same dense columns give the same cube (values and missing marks, every format) *)
